@@ -218,6 +218,12 @@ class Num:
     def upper(self):
         return self
 
+    def __str__(self):
+        # the abstract numeral IS a well-formed digit string of its base (that is what bin / oct / hex produce);
+        # code that validates the characters of str(x) sees a valid representative.  Texts that are not digit
+        # strings are decided concretely in harness/c20_text.py
+        return '0'
+
     def ndigits(self):
         """number of digits as an SInt (value is a non-negative SInt below base**10)"""
         bits = {2: 1, 8: 3, 16: 4}[self.base]
